@@ -56,6 +56,20 @@ ZERO_END_PROBES = [
          {"name": "n2", "kind": "rowwise", "deps": ["n1", "s0"], "coefs": [1, 1], "b": 0, "slot": "a"}],
          "chunkings": {"s0": {"0": [[0, 30, 0, 3]], "1": [[0, 10, 0, 2], [10, 30, 2, 3]]}}},
      "keep": ["n1"]},
+    # third form: all SOURCE chunkings are tight, Plugin.iter's own early split creates the situation:
+    # the things [5,5), [5,9) come in one chunk, the base row [5,6) in [0,7) + [7,30); the pacemaker end 7 cuts
+    # [5,9), the early split moves to 5 and leaves [5,5) in the call [0,5) while the base row goes to the next call
+    {"input": {"probe": "loop_plugin_silent_drop_after_early_split",
+               "base_rows_t_e_v": [[5, 6, 1]], "base_chunks": [[0, 7], [7, 30]],
+               "thing_rows_t_e_v": [[5, 5, 50], [5, 9, 7]], "thing_chunks": [[0, 30]],
+               "expected_event_sums": [51], "got": [1]},
+     "graph": {"T": 30, "target": "n2", "nodes": [
+         {"name": "s0", "kind": "source", "deps": [], "rows": [[5, 6, 0, 1]], "slot": "a", "disjoint": True},
+         {"name": "s1", "kind": "source", "deps": [], "rows": [[5, 5, 100, 50], [5, 9, 101, 7]], "slot": "b"},
+         {"name": "n2", "kind": "loop", "deps": ["s0", "s1"], "a": 1, "b": 0, "slot": "a"}],
+         "chunkings": {"s0": {"0": [[0, 30, 0, 1]], "1": [[0, 7, 0, 1], [7, 30, 1, 1]]},
+                       "s1": {"0": [[0, 30, 0, 2]], "1": [[0, 30, 0, 2]]}}},
+     "keep": []},
 ]
 
 
@@ -86,6 +100,11 @@ def gen_rows(rng, n, disjoint, id0):
     mx = 0
     for i in range(n):
         step = rng.choice(STEPS)
+        if rows and rows[-1][0] == rows[-1][1] and step == 0:
+            # a zero-length row [x, x) directly followed by another row starting at x: an early split
+            # (split_array: t = min(data[splittable_i].time, t)) would leave [x, x) on the exclusive end of
+            # the left part -- known finding F1, third probe; never generated at random
+            step = 1
         t = (max(t, mx) if disjoint else t) + step
         ln = rng.choice(LENS)
         rows.append([t, t + ln, id0 + i, rng.randrange(0, 1000)])
